@@ -12,11 +12,16 @@ from concurrent.futures import ThreadPoolExecutor
 from . import core
 from .core import cz, clist, cbool
 
-IMPORTS = ("Require Import Hdl21.Base.PyInt Hdl21.Model.C08PassFail Hdl21.Model.C08GenFail Hdl21.Corr.C03 Hdl21.Corr.C08.")
+IMPORTS = ("Require Import Hdl21.Base.PyInt Hdl21.Model.C08PassFail Hdl21.Model.C08GenFail Hdl21.Model.C08Elaborator Hdl21.Corr.C03 Hdl21.Corr.C08.")
 
 FAULTS = {  # fault class -> is the module left half-rewritten when the fault is caught (caught inside a rewriting pass)?
     "missing": False, "width": False, "orphan": False, "unnamed": False, "cycle": False,
-    "arrwidth": True, "badref": True, "anonmissing": True}
+    "arrwidth": True, "badref": True, "anonmissing": True,
+    # strengthening round 2: an instance of the module connected to an object that belongs to ANOTHER (valid) module; Orphanage
+    "borrow": False}
+FAULTS2 = ["missing", "width", "orphan", "arrwidth", "badref"]      # faults of the UNRELATED design's leaf (a second, independent failure)
+BORROW_NEEDS = {"sig": None, "slice": None, "port": None, "binst": "bun", "bref": "bun", "pref": "ref"}
+INSTALLS = ["scratch", "mutate", "inplace"]
 HALF_BASES = {"InstBundleElabPass": "pairp", "ResolvePortRefs": "ref", "BundleFlattener": "bun", "ArrayFlattener": "arrp"}
 FEATS = ["ref", "slc", "nc", "arrp", "bun", "pairp"]
 
@@ -48,27 +53,48 @@ def run_histories(jobs, kind="history"):
     return res
 
 
-def with_fresh(jobs, kind="history"):
-    """(outs, fresh) — fresh[i][k] = what step k of history i returns when it is the only call of its process"""
+def closure(mods, tops):
+    seen, todo = set(), list(tops)
+    while todo:
+        k = todo.pop()
+        if k not in seen:
+            seen.add(k)
+            todo += [c for _, c in mods[k]["kids"]]
+    return seen
+
+
+def with_fresh(jobs, kind="history", bads=None):
+    """(outs, fresh, minimal, n) — fresh[i][k] = what step k of history i returns when it is the only call of its process, all
+    objects of the history built and edited as they were; minimal[i][k] = the same when NOTHING BUT THE DESIGN of the call
+    was ever built in the process (only for calls whose design never contained the faulty module bads[i]: "the result a
+    fresh process gives" for a design cannot depend on which other, faulty modules someone built next to it)"""
     outs = run_histories(jobs, kind)
     fjobs, where, seen = [], [], {}
+
+    def fjob(fj):
+        key = json.dumps(fj, sort_keys=True)
+        if key not in seen:
+            seen[key] = len(fjobs)
+            fjobs.append(fj)
+        return seen[key]
     for i, j in enumerate(jobs):
         for k, st in enumerate(j["steps"]):
             if st.get("op", "call") != "call":
                 continue
             # the edits the library accepted so far (a refused edit did not change the design)
             pre = [s for q, s in enumerate(j["steps"][:k]) if s.get("op") == "edit" and outs[i]["steps"][q].get("edit") == "ok"]
-            fj = dict(j, steps=pre + [st], only=len(pre))
-            key = json.dumps(fj, sort_keys=True)
-            if key not in seen:
-                seen[key] = len(fjobs)
-                fjobs.append(fj)
-            where.append((i, k, seen[key], len(pre)))
+            where.append((i, k, fjob(dict(j, steps=pre + [st], only=len(pre))), len(pre), False))
+            if bads is not None and bads[i] is not None:
+                keep = closure(j["mods"], st["tops"])
+                if bads[i] not in keep:
+                    pre2 = [s for s in pre if s["mod"] in keep]
+                    where.append((i, k, fjob(dict(j, steps=pre2 + [st], only=len(pre2), keep=sorted(keep))), len(pre2), True))
     fouts = run_histories(fjobs, kind)
     fresh = [dict() for _ in jobs]
-    for i, k, f, pos in where:
-        fresh[i][k] = fouts[f]["steps"][pos]
-    return outs, fresh, len(fjobs)
+    minimal = [dict() for _ in jobs]
+    for i, k, f, pos, mn in where:
+        (minimal if mn else fresh)[i][k] = fouts[f]["steps"][pos]
+    return outs, fresh, minimal, len(fjobs)
 
 
 # ------------------------------------------------------------------------------------------ Coq printing
@@ -142,8 +168,33 @@ def custom_pid(job, key):
     return 100 + [x["key"] for x in job["custom"]].index(key)
 
 
-def c_history(static, job, out, fresh, meta):
+def c_pass(p):
+    return f"{{| pid := {cn(p[0])}; prw := {cbool(p[1])}; pmk := {cbool(p[2])} |}}"
+
+
+def c_install(static, job, elab, prs):
+    """how the pass list of the call is made, as a step of Model/C08Elaborator.v"""
+    if elab != "custom":
+        return "EReset"
+    how = job.get("install", "scratch")
+    if how == "scratch":
+        return f"(EScratch {clist(prs, c_pass)})"
+    names = [p["name"] for p in static["passes"]]
+    ops, ins = [], []
+    for ps in job["custom"]:
+        pid = custom_pid(job, ps["key"])
+        if ps["kind"] == "raiser":
+            ins.append((ps["at"], (pid, bool(ps.get("rewrites", True)) or not static["has_attr"], False)))
+        else:
+            ops.append(f"ERepl {cn(names.index(ps['base']))} {c_pass((pid, True, False))}")
+    for at, p_ in sorted(ins, key=lambda t: -t[0]):
+        ops.append(f"EIns {cn(at)} {c_pass(p_)}")
+    return f"({'EMutate' if how == 'mutate' else 'EInplace'} {clist(ops)})"
+
+
+def c_history(static, job, out, fresh, meta, minimal=None):
     """meta[k] (call steps only): retry_of, bad (module, half) or None, search(bool), carry(bool)"""
+    minimal = minimal or {}
     names = {sp["name"]: i for i, sp in enumerate(job["mods"])}
     it = Interner(names)
     steps = []
@@ -163,13 +214,19 @@ def c_history(static, job, out, fresh, meta):
         r = out["steps"][k]
         mt = meta[k]
         prs = pass_records(static, job, st["elab"], out["custom_keys"])
-        passes = clist(prs, lambda p: f"{{| pid := {cn(p[0])}; prw := {cbool(p[1])}; pmk := {cbool(p[2])} |}}")
+        passes = clist(prs, c_pass)
         kids = clist(list(enumerate(r["kids"])), lambda e: f"({cn(e[0])}, {clist(e[1], cn)})")
         fails = []
         if st["elab"] == "custom" and mt.get("inject", True):
             for ps in job["custom"]:
-                code = it.code(dict(cls=EXC_CLS[ps.get("exc", "exc")], msg=ps["msg"]))
-                fails.append(f"({cn(custom_pid(job, ps['key']))}, {cn(ps['target'])}, {cz(code)})")
+                # the identity of the injected failure = the text observed for it (an `Exception` is raised through
+                # ElabPass.fail, so its text carries the hierarchical path to the target module)
+                xc = EXC_CLS[ps.get("exc", "exc")]
+                seen_ = [o_["err"] for s_, o_ in zip(job["steps"], out["steps"]) if s_.get("op") == "call" and o_ and "err" in o_
+                         and o_["err"]["cls"] == xc and o_["err"]["msg"].endswith(ps["msg"])]
+                code = it.code(seen_[0] if seen_ else dict(cls=xc, msg=ps["msg"]))
+                for tg in [ps["target"]] + ps.get("also", []):
+                    fails.append(f"({cn(custom_pid(job, ps['key']))}, {cn(tg)}, {cz(code)})")
         call = (f"{{| c_kids := {kids}; c_passes := {passes}; c_tops := {clist(st['tops'], cn)}; "
                 f"c_fail := {clist(fails)}; c_export := {cbool(st['entry'] != 'elaborate')} |}}")
         done = []
@@ -178,20 +235,26 @@ def c_history(static, job, out, fresh, meta):
             done += [cpair(pid, m) for m in ms]
         failed = clist(sorted(r["failed"].items()), lambda kv: f"({cn(int(kv[0]))}, {cz(it.code(kv[1]))})")
         pend_empty = all(not v for v in r["pend"].values())
-        obs = (f"{{| o_out := {c_iout(r, it)[6:-1]}; o_pend_empty := {cbool(pend_empty)}; o_done := {clist(done)}; "
-               f"o_failed := {failed}; o_elab := {clist(r['elab'], cn)} |}}")
+        txt = lambda x: cz(it.code(x["err"])) if x is not None and "err" in x else "0"
+        inst = []
+        for key in (r.get("installed") or ["?none"]):
+            inst.append(pnames.index(key) if key in pnames else (custom_pid(job, key) if key in [x["key"] for x in job["custom"]] else 999))
+        obs = (f"{{| o_out := {c_iout(r, it)[6:-1]}; o_txt := {txt(r)}; o_pend_empty := {cbool(pend_empty)}; o_done := {clist(done)}; "
+               f"o_failed := {failed}; o_elab := {clist(r['elab'], cn)}; o_installed := {clist(inst, cn)} |}}")
         retry = "None" if mt.get("retry_of") is None else f"(Some {cn(call_index[mt['retry_of']])})"
         bad = "None" if mt.get("bad") is None else f"(Some ({cn(mt['bad'][0])}, {cbool(mt['bad'][1])}))"
         search = "None"
         if mt.get("search") and "err" in r and not it.err(r["err"]).startswith("(CCycle"):
             search = f"(Some {cz(it.code(r['err']))})"
         steps.append(f"{{| st_call := {call};\n    st_obs := {obs};\n    st_retry_of := {retry}; st_fresh := {c_iout(fresh.get(k), it)}; "
-                     f"st_bad := {bad}; st_search := {search}; st_carry := {cbool(bool(mt.get('carry')))} |}}")
+                     f"st_fresh_txt := {txt(fresh.get(k))}; st_min := {c_iout(minimal.get(k), it)}; st_min_txt := {txt(minimal.get(k))}; "
+                     f"st_bad := {bad}; st_search := {search}; st_carry := {cbool(bool(mt.get('carry')))}; "
+                     f"st_install := {c_install(static, job, st['elab'], prs)} |}}")
     return clist(steps), it
 
 
 # ------------------------------------------------------------------------------------------ universes and histories
-def universe(r, bad, fault=None, need=None):
+def universe(r, bad, fault=None, need=None, borrow=None, fault2=None):
     def feats(extra=()):
         f = [x for x in FEATS if r.random() < 0.35]
         for e in extra:
@@ -200,12 +263,13 @@ def universe(r, bad, fault=None, need=None):
         return f
     special = lambda: r.choice(["inst", "inst", "arr", "pair"])
     mods = [None] * 10
-    mods[L0] = dict(name="L0", kids=[], feats=feats() + (["bport"] if (fault == "anonmissing" or r.random() < 0.3) else []))
+    binst = fault == "borrow" and borrow[0] == "binst"
+    mods[L0] = dict(name="L0", kids=[], feats=feats() + (["bport"] if (fault == "anonmissing" or binst or r.random() < 0.3) else []))
     mods[L1] = dict(name="L1", kids=[], feats=feats())
     mods[S] = dict(name="S", kids=[[special(), L1]], feats=feats())
-    k0 = r.choice(["inst", "arr"]) if fault == "anonmissing" else special()
+    k0 = r.choice(["inst", "arr"]) if (fault == "anonmissing" or binst) else special()
     mods[BAD] = dict(name="BAD", kids=([["inst", L1]] if r.random() < 0.4 and k0 != "inst" else []) + [[k0, L0]], feats=feats())
-    if fault == "anonmissing":
+    if fault == "anonmissing" or binst:
         mods[BAD]["kids"] = [[k0, L0]]
     order = [["inst", S], [special(), BAD]] if r.random() < 0.5 else [["inst", BAD], [special(), S]]
     mods[MID] = dict(name="MID", kids=order, feats=feats())
@@ -221,6 +285,14 @@ def universe(r, bad, fault=None, need=None):
     b = mods[bad]
     if need and need not in b["feats"]:
         b["feats"].append(need)
+    if fault2:                      # the unrelated design has a fault of its own, in its leaf
+        mods[U0]["fault"] = fault2
+    if fault == "borrow":
+        what, owner = borrow
+        b["borrow"] = {"from": owner, "what": what}
+        nd = BORROW_NEEDS[what]
+        if nd and nd not in mods[owner]["feats"]:
+            mods[owner]["feats"].append(nd)
     if fault:
         b["fault"] = fault
         if fault == "unnamed":
@@ -249,27 +321,40 @@ def parents_of(mods, x):
     return [i for i, m in enumerate(mods) if i != x and any(ci == x for _, ci in m["kids"])]
 
 
-def mk_history(r, kind, cont, bad=None, param=None, exc="exc"):
+OWNERS = [S, L1, U0, UT, SH1]       # valid modules a faulty one may borrow from (none of them contains it)
+
+
+def mk_history(r, kind, cont, bad=None, param=None, exc="exc", install=None, also=None, fault2=None):
     """kind = raiser | half | fault ; cont = names of the continuations; exc = what ends the injected pass body (EXC_CLS);
     returns (job, meta, info)"""
     bad = bad if bad is not None else r.choice([L0, BAD, BAD, TOP])
-    custom, fault, need = [], None, None
+    custom, fault, need, borrow = [], None, None, None
+    # the injected pass would raise in these modules of OTHER designs too, were it still installed when they are elaborated
+    also = also if also is not None else r.choice([[], [U0], [UT], [SH1], [U0, SH1]])
+    install = install or r.choice(INSTALLS)
+    if fault2 is None:
+        fault2 = r.choice([False, False, False] + FAULTS2)
     if kind == "raiser":
         at, rewrites = param if param else (r.randint(0, 10), r.random() < 0.6)
-        custom = [dict(key="X0", kind="raiser", at=at, target=bad, rewrites=rewrites, msg="injected by a custom pass", exc=exc)]
+        custom = [dict(key="X0", kind="raiser", at=at, target=bad, rewrites=rewrites, msg="injected by a custom pass", exc=exc, **({"also": also} if also else {}))]
         half = False
     elif kind == "half":
         base, k = param if param else (r.choice(sorted(HALF_BASES)), r.choice([1, 1, 2]))
         need = HALF_BASES[base]
-        custom = [dict(key="X0", kind="half", base=base, target=bad, k=k, msg="injected part-way through a rewriting pass", exc=exc)]
+        custom = [dict(key="X0", kind="half", base=base, target=bad, k=k, msg="injected part-way through a rewriting pass", exc=exc, **({"also": also} if also else {}))]
         half = True
     else:
         fault = param if param else r.choice(sorted(FAULTS))
-        if fault == "anonmissing":
+        if isinstance(fault, (list, tuple)):
+            fault, borrow = fault[0], (fault[1], fault[2])
+        if fault == "borrow" and borrow is None:
+            borrow = (r.choice(sorted(BORROW_NEEDS) + ["binst", "binst"]), r.choice(OWNERS))
+        if fault == "anonmissing" or (fault == "borrow" and borrow[0] == "binst"):
             bad = BAD
         half = FAULTS[fault]
         exc = "exc"
-    mods = universe(r, bad, fault, need)
+        install = "scratch"
+    mods = universe(r, bad, fault, need, borrow, fault2)
     # the failing module built anew: same children, same content, without the fault (what "repair" means for a module
     # that is refused for good); nothing instantiates it until a `retarget` edit
     new = copy.deepcopy(mods[bad])
@@ -288,7 +373,17 @@ def mk_history(r, kind, cont, bad=None, param=None, exc="exc"):
 
     repaired = [False]
     retargeted = [False]
+    last_ut = [None]
     same = lambda: 0 if not repaired[0] and not retargeted[0] else None
+
+    def unrelated():
+        # the unrelated design; when it has a fault of its own (fault2) this is a second, independent failure, and its
+        # repetition a retry of THAT call
+        if fault2:
+            add(call([UT], "to_proto", "default"), bad=(U0, FAULTS[fault2]), search=True, retry_of=last_ut[0])
+            last_ut[0] = len(steps) - 1
+        else:
+            add(call([UT], "to_proto", "default"))
     for c in cont:
         if c == "retry":
             add(call([TOP], first["entry"], elab0), retry_of=same())
@@ -313,8 +408,13 @@ def mk_history(r, kind, cont, bad=None, param=None, exc="exc"):
             add(call([S], "to_proto", "default"))
         elif c == "new_top":              # the re-created module elaborated on its own
             add(call([NEW], "to_proto", "default"))
-        elif c == "unrelated":
-            add(call([UT], "to_proto", "default"))
+        elif c == "unrelated" or (c == "both" and fault2):
+            unrelated()
+        elif c == "owner":                # the design of the module the faulty one borrowed from (else: the unrelated design)
+            if borrow and borrow[1] not in (U0, UT):
+                add(call([borrow[1]], "to_proto", "default"))
+            else:
+                unrelated()
         elif c == "share":
             add(call([SH1], "to_proto", "default"))
         elif c == "share_bad":
@@ -325,8 +425,9 @@ def mk_history(r, kind, cont, bad=None, param=None, exc="exc"):
             add(dict(call([UT, TOP], "to_proto", "default"), aslist=True))
         elif c == "leafs":
             add(dict(call([L1, S], "elaborate", "default"), aslist=True))
-    job = dict(mods=mods, custom=custom, steps=steps)
-    return job, meta, dict(kind=kind, cont=list(cont), bad=bad, fault=fault, param=param, exc=exc)
+    job = dict(mods=mods, custom=custom, steps=steps, install=install)
+    return job, meta, dict(kind=kind, cont=list(cont), bad=bad, fault=fault, param=param, exc=exc, install=install, also=also,
+                           fault2=fault2 or None, borrow=borrow)
 
 
 CONTS = [["retry"], ["retry", "retry_export"], ["retry_default"], ["repair", "retry_default"], ["unrelated"], ["share"],
@@ -340,20 +441,22 @@ RT_CONTS = [c for c in CONTS if any(x.startswith("retarget") for x in c)]
 
 def evaluate(tag, static, items, chunk=40):
     jobs = [it[0] for it in items]
-    outs, fresh, nfresh = with_fresh(jobs)
+    outs, fresh, minimal, nfresh = with_fresh(jobs, bads=[it[2].get("bad") for it in items])
     cases, inters = [], []
-    for (job, meta, info), out, fr in zip(items, outs, fresh):
+    for (job, meta, info), out, fr, mn in zip(items, outs, fresh, minimal):
         # an injection that did not trigger (the helper was not called often enough) is no injection
         if info["kind"] == "half" and "ok" in out["steps"][0]:
             for m in meta.values():
                 m["inject"] = False
             meta[0]["bad"] = None
             info["not_triggered"] = True
-        c, it = c_history(static, job, out, fr, meta)
+        c, it = c_history(static, job, out, fr, meta, mn)
         cases.append(c)
         inters.append(it)
     bad = core.coq_eval_cases("C08", tag, IMPORTS, "hcase", cases, "run_cases chk_history", chunk=chunk)
     res = {i: (c % 10, c // 10 - 1) for i, c in bad}
+    for o, mn in zip(outs, minimal):
+        o["minimal"] = mn
     return outs, fresh, res, nfresh
 
 
@@ -364,6 +467,12 @@ def first_failed(out):
 def describe(info):
     return f"{info['kind']}" + (f"/{info['fault']}" if info.get("fault") else "") + \
         (f"/{info['param']}" if info.get("param") and info["kind"] != "fault" else "") + f" in module {info['bad']} then {'+'.join(info['cont'])}"
+
+
+def short(r):
+    """an error for the report line: how many lines of hierarchical path, and the last line"""
+    lines = r["err"]["msg"].split("\n")
+    return f"{r['err']['cls']}[path of {max(0, len(lines) - 2)} lines] {lines[-1][:90]}"
 
 
 def report(run, stream, items, outs, fresh, res, limit=3, keep_order=False):
@@ -381,17 +490,20 @@ def report(run, stream, items, outs, fresh, res, limit=3, keep_order=False):
         calls = [k for k, s in enumerate(job["steps"]) if s["op"] == "call"]
         k = calls[st]
         key = "C08:" + json.dumps(dict(mods=job["mods"], custom=job["custom"], steps=job["steps"][:k + 1]), sort_keys=True)
-        summary = [(s_.get("err", {}).get("msg", "")[:60] if "err" in s_ else ("package " + s_["ok"] if s_.get("ok") else "ok")) +
+        summary = [(short(s_) if "err" in s_ else ("package " + s_["ok"] if s_.get("ok") else "ok")) +
                    ("" if all(not v for v in s_["pend"].values()) else " [left pending: " + ",".join(f"{a}{b}" for a, b in s_["pend"].items() if b) + "]")
                    for s_ in outs[i]["steps"] if s_ is not None and "edit" not in s_]
         fr = fresh[i].get(k, {})
         run.violation(key, f"{describe(info)}: call #{st} {job['steps'][k]['entry']}({job['steps'][k]['tops']}) violates the specification; "
                       f"calls of the history returned: {summary}; a fresh process returns for call #{st}: "
-                      f"{fr.get('err', {}).get('msg', '')[:60] if 'err' in fr else fr.get('ok')}",
+                      f"{short(fr) if 'err' in fr else fr.get('ok')}" +
+                      (f"; a process in which only this design was ever built returns: {short(outs[i]['minimal'][k]) if 'err' in outs[i]['minimal'][k] else outs[i]['minimal'][k].get('ok')}"
+                       if k in outs[i].get("minimal", {}) else ""),
                       dict(kind="impl-violates-spec", stream=stream, case=dict(job=job, meta={str(a): b for a, b in meta.items()}, info=info),
                            failing_call=st, impl=[dict((a, b) for a, b in s.items() if a in ("ok", "err", "pend", "failed", "edit"))
                                                   for s in outs[i]["steps"]],
                            fresh={str(a): dict((x, y) for x, y in b.items() if x in ("ok", "err")) for a, b in fresh[i].items()},
+                           only_this_design_built={str(a): dict((x, y) for x, y in b.items() if x in ("ok", "err")) for a, b in outs[i].get("minimal", {}).items()},
                            failing_cases=len(v1)))
     if v2 and not v1:
         i = v2[0]
@@ -478,10 +590,12 @@ def c_gout(r, names):
 def c_gcase(job, out, fresh):
     names = {}
     steps = []
+    texts = {}
+    txt = lambda x: texts.setdefault((x["err"]["cls"], x["err"]["msg"]), len(texts) + 1) if "err" in x else 0
     for k, st in enumerate(job["steps"]):
         r, f = out["steps"][k], fresh[k]
         modes = clist(sorted((int(a), mode_for_model(int(a), b)) for a, b in st["modes"].items()), lambda e: f"({cn(e[0])}, Some ({cn(e[1][0])}, {cn(e[1][1])}))")
-        steps.append(f"{{| g_key := {cn(st['key'])}; g_modes := {modes}; g_out := {c_gout(r, names)}; g_fresh := {c_gout(f, names)}; "
+        steps.append(f"{{| g_key := {cn(st['key'])}; g_modes := {modes}; g_out := {c_gout(r, names)}; g_fresh := {c_gout(f, names)}; g_txt := {txt(r)}; g_fresh_txt := {txt(f)}; "
                      f"g_pend_empty := {cbool(r['pend'] == 0)}; g_stack_empty := {cbool(r['stack'] == 0)}; "
                      f"g_done := {clist(r['done'], cn)}; g_runs := {clist(sorted((int(a), b) for a, b in r['runs'].items()), lambda e: cpair(*e))} |}}")
     calls = clist(list(enumerate(job["gens"])), lambda e: f"({cn(e[0])}, {clist(e[1], cn)})")
@@ -529,7 +643,7 @@ def run_gen(run, stream, jobs, cov=None):
     for j in jobs:
         for s in j["steps"]:
             s["op"] = "call"
-    outs, fresh, nfresh = with_fresh(jobs, kind="gen")
+    outs, fresh, _mn, nfresh = with_fresh(jobs, kind="gen")
     cases = [c_gcase(j, o, f) for j, o, f in zip(jobs, outs, fresh)]
     bad = core.coq_eval_cases("C08", stream.replace("-", "_"), IMPORTS, "gcase", cases, "run_cases chk_gen", chunk=100)
     raised = sum(1 for o in outs if any("err" in s for s in o["steps"][:-1]))
@@ -566,41 +680,71 @@ def run_gen(run, stream, jobs, cov=None):
 
 
 # ------------------------------------------------------------------------------------------ run
+OLD = dict(also=[], install="scratch", fault2=False)      # the histories of the earlier rounds, exactly as they were
+
+
 def corpus_items():
+    return corpus_items_old() + corpus_items_r3()
+
+
+def corpus_items_r3():
+    """strengthening round 2 (seeded changes C08r3-A/B/C)"""
+    items = []
+    R = lambda k: core.rng(0, "C08", "corpus-r3", k)
+    # A: an error that no module records (circular dependency) repeated: the same text, hierarchical path included
+    items.append(mk_history(R(1), "fault", ["retry", "retry"], bad=MID, param="cycle", **OLD))
+    # A: a second, independent failure in the same pass class: the unrelated design has a missing connection of its own
+    items.append(mk_history(R(2), "fault", ["unrelated", "unrelated", "retry"], bad=BAD, param="missing", also=[], install="scratch", fault2="missing"))
+    items.append(mk_history(R(3), "fault", ["unrelated", "share"], bad=L0, param="orphan", also=[], install="scratch", fault2="orphan"))
+    # B: the custom list made by editing Elaborator.default() / the installed elaborator, then reset_elaborator(), then the
+    #    unrelated design and a design sharing sub-modules; the injected pass would raise in them too
+    items.append(mk_history(R(4), "raiser", ["unrelated", "share", "retry"], bad=BAD, param=(0, True), also=[U0, SH1], install="mutate", fault2=False))
+    items.append(mk_history(R(5), "raiser", ["share", "retry_default", "unrelated"], bad=L0, param=(5, False), also=[UT, SH1], install="inplace", fault2=False))
+    items.append(mk_history(R(6), "half", ["unrelated", "retry", "share"], bad=BAD, param=("BundleFlattener", 1), also=[U0], install="mutate", fault2=False))
+    # C: an instance of the faulty module connected to a Bundle instance / signal / port reference of ANOTHER, valid module,
+    #    then the owner's design
+    items.append(mk_history(R(7), "fault", ["retry", "owner", "owner"], bad=BAD, param=("borrow", "binst", U0), also=[], install="scratch", fault2=False))
+    items.append(mk_history(R(8), "fault", ["owner", "share", "retry"], bad=BAD, param=("borrow", "binst", S), also=[], install="scratch", fault2=False))
+    items.append(mk_history(R(9), "fault", ["owner", "retry"], bad=TOP, param=("borrow", "pref", L1), also=[], install="scratch", fault2=False))
+    items.append(mk_history(R(10), "fault", ["owner", "share"], bad=L0, param=("borrow", "bref", SH1), also=[], install="scratch", fault2=False))
+    return items
+
+
+def corpus_items_old():
     items = []
     # DESIGN 7 #10: a module with a missing connection elaborated twice
-    items.append(mk_history(core.rng(0, "C08", "corpus", 1), "fault", ["retry"], bad=BAD, param="missing"))
+    items.append(mk_history(core.rng(0, "C08", "corpus", 1), "fault", ["retry"], bad=BAD, param="missing", **OLD))
     # the "obvious repair" witnesses: a failure inside the array / bundle flattening pass, then a retry without the injection
-    items.append(mk_history(core.rng(0, "C08", "corpus", 2), "half", ["retry_default"], bad=BAD, param=("ArrayFlattener", 1)))
-    items.append(mk_history(core.rng(0, "C08", "corpus", 3), "half", ["retry_default"], bad=BAD, param=("BundleFlattener", 2)))
-    items.append(mk_history(core.rng(0, "C08", "corpus", 4), "fault", ["repair", "retry_default"], bad=BAD, param="arrwidth"))
-    items.append(mk_history(core.rng(0, "C08", "corpus", 5), "fault", ["retry", "share_bad", "share"], bad=BAD, param="anonmissing"))
-    items.append(mk_history(core.rng(0, "C08", "corpus", 6), "raiser", ["retry", "retry_default", "unrelated"], bad=L0, param=(4, False)))
-    items.append(mk_history(core.rng(0, "C08", "corpus", 7), "fault", ["retry"], bad=MID, param="cycle"))
-    items.append(mk_history(core.rng(0, "C08", "corpus", 8), "fault", ["unrelated", "share"], bad=TOP, param="width"))
-    items.append(mk_history(core.rng(0, "C08", "corpus", 9), "fault", ["repair", "retry_default"], bad=BAD, param="unnamed"))
+    items.append(mk_history(core.rng(0, "C08", "corpus", 2), "half", ["retry_default"], bad=BAD, param=("ArrayFlattener", 1), **OLD))
+    items.append(mk_history(core.rng(0, "C08", "corpus", 3), "half", ["retry_default"], bad=BAD, param=("BundleFlattener", 2), **OLD))
+    items.append(mk_history(core.rng(0, "C08", "corpus", 4), "fault", ["repair", "retry_default"], bad=BAD, param="arrwidth", **OLD))
+    items.append(mk_history(core.rng(0, "C08", "corpus", 5), "fault", ["retry", "share_bad", "share"], bad=BAD, param="anonmissing", **OLD))
+    items.append(mk_history(core.rng(0, "C08", "corpus", 6), "raiser", ["retry", "retry_default", "unrelated"], bad=L0, param=(4, False), **OLD))
+    items.append(mk_history(core.rng(0, "C08", "corpus", 7), "fault", ["retry"], bad=MID, param="cycle", **OLD))
+    items.append(mk_history(core.rng(0, "C08", "corpus", 8), "fault", ["unrelated", "share"], bad=TOP, param="width", **OLD))
+    items.append(mk_history(core.rng(0, "C08", "corpus", 9), "fault", ["repair", "retry_default"], bad=BAD, param="unnamed", **OLD))
     # strengthening round
     # (b) a rewriting pass ended part-way by a KeyboardInterrupt, then a retry without the injection (fix C08-3)
-    items.append(mk_history(core.rng(0, "C08", "corpus", 10), "half", ["retry_default"], bad=BAD, param=("ArrayFlattener", 1), exc="kbd"))
-    items.append(mk_history(core.rng(0, "C08", "corpus", 11), "half", ["retry", "share_bad"], bad=L0, param=("BundleFlattener", 1), exc="outcome"))
+    items.append(mk_history(core.rng(0, "C08", "corpus", 10), "half", ["retry_default"], bad=BAD, param=("ArrayFlattener", 1), exc="kbd", **OLD))
+    items.append(mk_history(core.rng(0, "C08", "corpus", 11), "half", ["retry", "share_bad"], bad=L0, param=("BundleFlattener", 1), exc="outcome", **OLD))
     # (a) the module with the missing connection is built anew and its parents pointed there, then the retry (fix C08-4):
     #     the passes before ConnTypes are done with the parents, the new module has port references to be resolved
     for k, (bad, fault, cont) in enumerate([(BAD, "missing", ["retarget", "retry_default"]),
                                              (L0, "arrwidth", ["retarget", "retry_default", "share_bad"]),
                                              (BAD, "width", ["retarget_one", "retry", "share_bad"])]):
-        job, meta, info = mk_history(core.rng(0, "C08", "corpus", 12 + k), "fault", cont, bad=bad, param=fault)
+        job, meta, info = mk_history(core.rng(0, "C08", "corpus", 12 + k), "fault", cont, bad=bad, param=fault, **OLD)
         for i in (bad, NEW):
             for ft in ("ref", "bun", "arrp"):
                 if ft not in job["mods"][i]["feats"]:
                     job["mods"][i]["feats"].append(ft)
         items.append((job, meta, info))
     # a parent built around the failed module afterwards is refused untouched; re-targeted, it is elaborated as in a fresh process
-    items.append(mk_history(core.rng(0, "C08", "corpus", 15), "fault", ["share_bad", "retarget", "share_bad", "retry_default"], bad=BAD, param="arrwidth"))
-    items.append(mk_history(core.rng(0, "C08", "corpus", 16), "raiser", ["share_bad_elab", "retarget", "share_bad", "new_top"], bad=BAD, param=(6, True), exc="exit"))
+    items.append(mk_history(core.rng(0, "C08", "corpus", 15), "fault", ["share_bad", "retarget", "share_bad", "retry_default"], bad=BAD, param="arrwidth", **OLD))
+    items.append(mk_history(core.rng(0, "C08", "corpus", 16), "raiser", ["share_bad_elab", "retarget", "share_bad", "new_top"], bad=BAD, param=(6, True), exc="exit", **OLD))
     # KNOWN FINDING (tools/findings/C08.json): the failed call leaves the healthy modules of its design completed by the
     # passes before the failing one, and - unlike after a successful elaboration - still open to additions, which those
     # passes never see.  The witness stays here so that any change of this behaviour shows.
-    items.append(mk_history(core.rng(0, "C08", "corpus", 17), "fault", ["edit_sibling"], bad=BAD, param="missing"))
+    items.append(mk_history(core.rng(0, "C08", "corpus", 17), "fault", ["edit_sibling"], bad=BAD, param="missing", **OLD))
     return items
 
 
@@ -621,6 +765,13 @@ TARGETS = {
     "gen_base_exception_through_nested_call": "... raised in a nested generator call",
     "gen_non_module_result_then_more": "generator bodies returning no Module, followed by more calls",
     "gen_uncached_body_failed_then_more": "failing bodies of generators declared with enable_cache=False, followed by more calls",
+    "cycle_error_repeated": "calls repeating a call that reported a circular dependency (an error no module records), compared by exact text",
+    "second_failure_in_unrelated_design": "failing calls on the unrelated design, which has a fault of its own, after the first failure (error text compared with the fresh process)",
+    "custom_list_by_editing_default_then_other_design": "histories whose custom pass list was made by editing the list of Elaborator.default(), followed by a default-list call on a design in which the injected pass would raise",
+    "custom_list_by_editing_installed_then_other_design": "... by editing the_global_elaborator.passes in place ...",
+    "borrowed_object_owner_elaborated": "calls on the design of a valid module from which the faulty module borrowed a signal / slice / port / bundle member / port reference, compared with the process in which only that design exists",
+    "borrowed_bundle_instance_owner_elaborated": "... from which it borrowed a Bundle instance (connected to a module that no other design elaborates)",
+    "calls_compared_with_minimal_process": "calls on designs that never contained the faulty module, compared with the process in which nothing but that design was built",
     "gen_naming_failed_then_call_repeated": "generator calls whose result could not be NAMED (a parameter value without a JSON form: the failure comes after the body ran), followed by a call that makes the failing call again",
 }
 
@@ -633,6 +784,24 @@ def module_coverage(items, outs, cov):
             cov["base_exception_in_pass_body"] += 1
             if info["kind"] == "half":
                 cov["base_exception_part_way_through_rewriting_pass"] += 1
+        cov["calls_compared_with_minimal_process"] += len(out.get("minimal", {}))
+        for k, (st, r) in enumerate(zip(job["steps"], out["steps"])):
+            if st["op"] != "call" or k == 0 or "err" not in st0:
+                continue
+            mt = meta.get(k, {})
+            if mt.get("retry_of") is not None and "err" in r and "circular dependency" in out["steps"][mt["retry_of"]].get("err", {}).get("msg", ""):
+                cov["cycle_error_repeated"] += 1
+            if info.get("fault2") and st["tops"] == [UT] and "err" in r:
+                cov["second_failure_in_unrelated_design"] += 1
+            if info["kind"] != "fault" and st["elab"] == "default" and set(info.get("also") or []) & closure(job["mods"], st["tops"]):
+                if info.get("install") == "mutate":
+                    cov["custom_list_by_editing_default_then_other_design"] += 1
+                elif info.get("install") == "inplace":
+                    cov["custom_list_by_editing_installed_then_other_design"] += 1
+            if info.get("borrow") and k in out.get("minimal", {}) and info["borrow"][1] in closure(job["mods"], st["tops"]):
+                cov["borrowed_object_owner_elaborated"] += 1
+                if info["borrow"][0] == "binst":
+                    cov["borrowed_bundle_instance_owner_elaborated"] += 1
         seen_rt = False
         refused = set()          # tops of calls that failed so far
         for k, (st, r) in enumerate(zip(job["steps"], out["steps"])):
@@ -705,7 +874,8 @@ def run(run, tier, seed, replay=None):
     # ---------------------------------------------------------------- exhaustive-small: every (pass position, module) x continuation
     items = []
     k = 0
-    conts = CONTS if not quick else [["retry", "retry_export"], ["retry_default", "share"], ["unrelated", "share_bad"],
+    conts = CONTS + [["unrelated", "share", "retry"], ["owner", "retry", "unrelated"]] if not quick else [
+                                     ["retry", "retry_export"], ["retry_default", "share"], ["unrelated", "share_bad"], ["unrelated", "share", "retry"],
                                      ["retarget", "retry_default", "share_bad"], ["share_bad", "retarget", "share_bad", "retry_export"],
                                      ["retarget_one", "retry", "share_bad_elab", "new_top"]]
     excs = ["exc", "kbd", "exc", "exit", "exc", "outcome", "exc", "cancel", "genexit"]
@@ -714,19 +884,28 @@ def run(run, tier, seed, replay=None):
             for rewrites in (True, False):
                 for cont in (conts if not quick else [conts[k % len(conts)]]):
                     items.append(mk_history(core.rng(seed, "C08", "exh-raiser", k), "raiser", cont, bad=bad, param=(at, rewrites),
-                                            exc=excs[(k // (1 if quick else len(conts))) % len(excs)]))
+                                            exc=excs[(k // (1 if quick else len(conts))) % len(excs)], install=INSTALLS[(k + k // 3) % 3]))
                     k += 1
     for bad in (L0, BAD, TOP):
         for base in sorted(HALF_BASES):
             for kk in (1, 2):
                 for cont in (conts if not quick else [conts[k % len(conts)], ["retry_default"]]):
                     items.append(mk_history(core.rng(seed, "C08", "exh-half", k), "half", cont, bad=bad, param=(base, kk),
-                                            exc=excs[(k + (k // len(excs))) % len(excs)]))
+                                            exc=excs[(k + (k // len(excs))) % len(excs)], install=INSTALLS[(k + k // 3) % 3]))
                     k += 1
     for bad in (L0, BAD, TOP):
         for fault in sorted(FAULTS):
             for cont in (conts + [["repair", "retry_default"]] if not quick else [conts[k % len(conts)], RT_CONTS[k % len(RT_CONTS)]]):
                 items.append(mk_history(core.rng(seed, "C08", "exh-fault", k), "fault", cont, bad=bad, param=fault))
+                k += 1
+    # every kind of borrowed object x owner (quick: two owners each), then the owner's design
+    for wi, what in enumerate(sorted(BORROW_NEEDS)):
+        for oi, owner in enumerate(OWNERS):
+            if quick and (oi + wi) % 3 == 2:
+                continue
+            for cont in ([["owner", "retry", "owner"]] if quick else [["owner"], ["retry", "owner", "share"], ["owner", "unrelated", "retry"]]):
+                items.append(mk_history(core.rng(seed, "C08", "exh-borrow", k), "fault", cont, bad=(BAD if (wi + oi) % 2 else TOP),
+                                        param=("borrow", what, owner)))
                 k += 1
     outs = do_stream("exhaustive-positions", items, exhaustive=True,
                      box="raising pass at each of the 11 positions of the default list x {rewriting, checking} x module in {leaf, middle, top}; "
@@ -743,7 +922,7 @@ def run(run, tier, seed, replay=None):
         r = core.rng(seed, "C08", "random", k)
         kind = r.choice(["raiser", "half", "fault", "fault"])
         cont = [r.choice(["retry", "retry_export", "retry_default", "repair", "unrelated", "share", "share_bad", "both", "leafs",
-                          "retarget", "retarget", "retarget_one", "new_top", "share_bad_elab"])
+                          "retarget", "retarget", "retarget_one", "new_top", "share_bad_elab", "owner", "unrelated", "share"])
                 for _ in range(r.randint(1, 5))]
         items.append(mk_history(r, kind, cont, exc=r.choice(["exc", "exc", "exc", "kbd", "exit", "outcome", "cancel", "genexit"])))
     outs = do_stream("random-histories", items)
